@@ -299,3 +299,40 @@ def M1b(inp, n):
     cl['change_refused_before_own_noop_is_applied'] = rec.calls == [(None, FAIL_REASON.REQUEST_DENIED)]
     cl['log_and_members_untouched'] = len(so.log_of(o)) == len(pre_log) and set(x.id for x in o.otherNodes) == set(members)
     return Res(cl, nontrivial=won, obs=lambda: dict(won=won, calls=show(rec.calls), noop=show(get(o, 'noopIDx')), applied=show(o.raftLastApplied)))
+
+
+@obligation('EJ', props=('C10',), quick=[dict()], stubs=_STUBS,
+            bounds='the end of the history of findings/F-REJOIN_demo.py as a pre-state: member A was removed (committed by B and D while C lagged), shut down and started again as a fresh empty '
+                   'process with the current member list [B, C, D]; C still has the initial log and the initial member set {A, B, C}; B leads term t (1..3) with committed entries; '
+                   'C\'s election timer fires, the fresh A answers (real tick, real vote handling, real count)')
+def EJ(inp):
+    """operator discipline of C10 (a removed node returns only as a fresh, empty process): such a process must not help a member
+    that missed the membership history to a majority - no second leader in a term that already has one."""
+    now = inp.real('now', 0)
+    clock = so.Clock(now)
+    so_mod.pickle = real_pickle
+    t = inp.int('t', 1, 3)
+    # B: leader of term t of the current cluster {B, C, D}
+    bo, btr = so.make('b', ['c', 'd'], clock, inp, dynamicMembershipChange=True)
+    so.set_log(bo, [(so.NOOP, 1, 0), (so.NOOP, 2, t), (so.NOOP, 3, t)])
+    put(bo, 'raftCurrentTerm', t); put(bo, 'raftState', L); put(bo, 'raftLeader', Node('b')); put(bo, 'raftCommitIndex', 3); put(bo, 'raftLastApplied', 3)
+    # C: never heard of anything: initial log, the term before, initial member set {A, B, C}; only the fresh A is connected to it
+    co, ctr = so.make('c', ['a', 'b'], clock, inp, dynamicMembershipChange=True)
+    put(co, 'raftCurrentTerm', t - 1)
+    put(co, 'raftElectionDeadline', now - 1)
+    get(co, 'connectedNodes').add(Node('a'))
+    # A': fresh, empty, started with the current member list
+    ao, atr = so.make('a', ['b', 'c', 'd'], clock, inp, dynamicMembershipChange=True)
+    put(ao, 'raftElectionDeadline', now + 100)
+    get(ao, 'connectedNodes').add(Node('c'))
+    _, exc = guard(co._onTick, 0.0)                      # C becomes a candidate of term t and asks A and B
+    for nd, m in list(ctr.sent):
+        if nd == Node('a') and exc is None:
+            _, exc = guard(getattr(ao, so.P + 'onMessageReceived'), Node('c'), m)
+    for nd, m in list(atr.sent):
+        if nd == Node('c') and exc is None:
+            _, exc = guard(getattr(co, so.P + 'onMessageReceived'), Node('a'), m)
+    cl = {'no_exception': exc is None}
+    cl['no_second_leader_in_the_term'] = Not(And(co._isLeader(), bo._isLeader(), Eq(get(co, 'raftCurrentTerm'), get(bo, 'raftCurrentTerm'))))
+    return Res(cl, nontrivial=True, obs=lambda: dict(t=show(t), c_term=show(get(co, 'raftCurrentTerm')), c_leader=co._isLeader(), b_leader=bo._isLeader(),
+                                                     votes=show(get(co, 'votesCount')), exc=show(exc)), vars=dict(t=t))
